@@ -16,7 +16,7 @@ EXTENDS Integers, Sequences, FiniteSets, TLC, SequencesExt, Json
 \* ---- the register ----------------------------------------------------------
 VARIABLES stored, case
 Classes == {"plain", "space", "dot", "squote", "dquote", "backslash", "control", "newline", "unicode", "nonbmp", "hash", "equals", "bracket", "percent"}
-PathForms == {"plain", "nested", "v2", "v10", "host", "atword", "atodd", "percent"}
+PathForms == {"plain", "nested", "v2", "v10", "host", "atword", "atodd", "percent", "atscope"}
 Cases == [name : Classes \cup {"empty"}, ignore : SUBSET {"plain", "dquote", "newline", "pathlike"}, nreq : 0..2,
           key : Classes \cup {"empty"}, key2 : {"plain", "dquote", "unicode"}, path : PathForms]
 
